@@ -108,6 +108,8 @@ def compare_cf(trace, answer):
     real_syms = [r for (_, _, r) in ps.new_symbols]
     if real_syms != ans[2]:
         return 'new_symbol results: implementation %s, model %s' % (real_syms, ans[2])
+    if len(ans) > 3 and ans[3] != 'True':
+        return 'the model\'s own output is rejected by the verified checker contractOk'
     return None
 
 
